@@ -85,6 +85,12 @@ DecVerdict(e) ==
   ELSE IF ~e.exact8 THEN "result-has-more-than-8-decimals"
   ELSE IF <<e.Rhi, e.Rlo>> # want THEN "not-the-decimal-result" ELSE "ok"
 
+\* operands beyond 15 significant digits (magnitude >= 1e7 with 7-8 decimals): the exact decimal sum is not a float;
+\* the result must be a float nearest to it.  r0, rm, rp: ranks (exact rational order) of the distances from the exact
+\* decimal sum of the result, of the float just below the result and of the float just above it.
+DecXVerdict(e) == IF e.exc # "none" THEN "raises:" \o e.exc
+                  ELSE IF e.r0 > e.rm \/ e.r0 > e.rp THEN "not-the-float-nearest-to-the-decimal-result" ELSE "ok"
+
 \* rx, rr, ru: ranks of the input, the result and the minimum unit 10^-p among these three floats
 RoundVerdict(e) ==
   LET kx == FloorLattice(e.m, e.e, e.p) IN
@@ -129,7 +135,7 @@ EriskVerdict(e) == IF e.exc # "none" THEN "raises:" \o e.exc ELSE IF e.R # Abs(e
 
 Verdict(e) == CASE e.k = "size" -> SizeVerdict(e) [] e.k = "risk" -> RiskVerdict(e) [] e.k = "rsize" -> RsizeVerdict(e)
                 [] e.k = "riskp" -> RiskPVerdict(e) [] e.k = "eriskp" -> EriskPVerdict(e) [] e.k = "rsizep" -> RsizePVerdict(e)
-                [] e.k \in {"sum", "sub"} -> DecVerdict(e) [] e.k \in {"rdown", "rqty"} -> RoundVerdict(e)
+                [] e.k \in {"sum", "sub"} -> DecVerdict(e) [] e.k \in {"sumx", "subx"} -> DecXVerdict(e) [] e.k \in {"rdown", "rqty"} -> RoundVerdict(e)
                 [] e.k \in {"rdownb", "rqtyb"} -> RoundBVerdict(e)
                 [] e.k = "lsl" -> LslVerdict(e) [] e.k = "lslp" -> LslpVerdict(e) [] e.k = "erisk" -> EriskVerdict(e)
                 [] OTHER -> "unknown-record-kind"
